@@ -27,6 +27,24 @@ KNOWN_CODES = {
 }
 
 PROPS = {
+    'C15': {
+        'families': [],
+        'monitors': [],
+        'statement': 'Props/C15.v: status tables total, http = status/100, gRPC code determined by the HTTP class, outcome flags compared with the status the coroutine returns',
+        'assumptions': ['the translator harness/verifh/gen_status.go reads the switch statements and flag comparisons correctly (its output is part of the evidence)'],
+        'level_text': 'The finite tables of both front ends (status constants, StatusCode.String cases, gRPC code() cases, HTTP code body, outcome-flag comparisons, Response.Status kinds) are regenerated from the source on every run and the theorems are exhaustive computations over them: every status has a message and a gRPC code (no renderer panics), HTTP = status/100, the gRPC class of every status is the one its HTTP class determines, every outcome flag is compared with the status the coroutine model returns on success. Found D8 and D9, repaired by fix: commits.',
+        'level_note': 'Trusted: Coq kernel + vm_compute; the go/ast translator. Not covered by this check: rendering of response bodies (exercised by the repository suite only).',
+        'technique': 'machine-checked proof in Rocq (Coq 8.16.1): exhaustive computation over tables regenerated from the Go source by a go/ast translator',
+    },
+    'C17': {
+        'families': [],
+        'monitors': [],
+        'statement': 'Props/C17.v: Postgres statements = SQLite statements modulo the dialect map, except five named structural differences; same scan targets; reference equality of statements and bindings',
+        'assumptions': ['no Postgres server exists in this sandbox: the meaning of the Postgres constructs (jsonb @>, DISTINCT ON, SERIAL, $n::int) is trusted', 'the SQLite statements are tied to Store.exec by the differential check of C16'],
+        'level_text': 'The statements, placeholder bindings and scan targets of postgres.go and sqlite.go are regenerated from the source on every run; theorems (by computation over all statements): each Postgres statement equals the SQLite statement under an explicit token-level dialect map except five structurally different statements that are listed by name; both backends scan every result row into the same record fields; the statements equal the frozen reference the model was reviewed against; both backends keep their data on shutdown by default.',
+        'level_note': 'Trusted: Coq kernel + vm_compute; the go/ast + SQL-lexer translator; Postgres semantics. A change to a Postgres statement breaks a theorem and is reported with no-failing-input-found (no server to run it on).',
+        'technique': 'machine-checked proof in Rocq (Coq 8.16.1): statement texts of both backends regenerated from the Go source by a translator and compared in Coq modulo a dialect map',
+    },
     'C07': {
         'families': [('tasks', 'sys', 150, 1500)],
         'monitors': ['C07_mon', 'C07x_mon'],
@@ -70,6 +88,8 @@ PROPS = {
     'C16': {
         'families': [('store', 'store', 60, 600)],
         'monitors': [],
+        'mismatch_is_violation': True,   # Store.exec IS the statement of C16: a batch on which the real store differs is the failing input
+        'crash_is_violation': True,
         'statement': 'per-command specifications and batch atomicity of Store.exec (Props/C16.v)',
         'assumptions': ['isolation between connections is SQLite\'s; observed through a second connection only after commit'],
         'level_text': 'Per-command specification theorems of Store.exec (conditional writes, exact row counts), transactions in order, batches all-or-nothing, for every database and every argument; tied to the code by differential execution of random transactions of all 27 command kinds against the real SqliteStore (results and all five tables compared after every batch) and by the regenerated SQL statements.',
